@@ -32,6 +32,8 @@ Env0 == [lockK |-> 0, lockD |-> 0, ints |-> <<>>, draws |-> <<>>]
 Call(o) ==
   CASE o.op = "adddev" -> [op |-> "adddev", ports |-> o.ports, res |-> 0,
                            dev |-> [k |-> "reg", ie |-> 0, val |-> o.val, time |-> 0, en |-> 0, lo |-> 0, hi |-> 0, vect |-> 0, prio |-> 0, slot |-> 0]]
+    [] o.op = "addnull" -> [op |-> "adddev", ports |-> o.ports, res |-> 0,
+                            dev |-> [k |-> "null", ie |-> 0, val |-> 0, time |-> 0, en |-> 0, lo |-> 0, hi |-> 0, vect |-> 0, prio |-> 0, slot |-> 0]]
     [] o.op = "rmdev"  -> [op |-> "rmdev", id |-> o.id]
     [] o.op = "mmap"   -> [op |-> "mmap", a |-> o.a, reg |-> o.reg, res |-> "ok"]
     [] o.op = "munmap" -> [op |-> "munmap", a |-> o.a, res |-> "ok"]
